@@ -539,6 +539,8 @@ class PathResult:
         self.effects = []           # non-noise expression statements / opaque statements executed on the path
         self.tests = []             # (test node, truth) decided on the path
         self.fell_off = False
+        self.inplace_folds = []     # (accumulator, loop) of accumulations done in place (acc += ...)
+        self.memo_calls = []        # (callee, cache expression) of memoising helpers that were evaluated through their cache
         self.tries = []             # try statements entered on the path
         self.calls = []             # expression statements that are calls, substituted: dict(call, seq, node)
         self.ended = None           # 'return' | 'raise' | 'continue' | 'break' | None (fell off the end)
@@ -570,6 +572,8 @@ class PathEval:
         if self.pred(e):
             return self.value
         if isinstance(e, ast.Name) and e.id in self.env and self.env[e.id] is not None and not (isinstance(self.env[e.id], ast.Name) and self.env[e.id].id == e.id):
+            if isinstance(self.env[e.id], (ast.Dict, ast.List, ast.Set, ast.ListComp, ast.DictComp, ast.SetComp)) or (isinstance(self.env[e.id], ast.Call) and isinstance(self.env[e.id].func, ast.Name) and self.env[e.id].func.id in ('dict', 'list', 'set', 'defaultdict', 'Counter', 'deque')):
+                raise KeyError(e.id)      # a local mutable container: its contents at this point are not its initial contents
             return self.const(self.env[e.id])
         if isinstance(e, ast.Name):
             vals = self.m.assigns.get(e.id) or []
@@ -794,6 +798,109 @@ class PathEval:
         self.env[top] = ast.fix_missing_locations(ast.Call(func=ast.Name('__max__', ast.Load()), args=[copy.deepcopy(gen)], keywords=copy.deepcopy(kw)))
         self.env[f] = None
         return True
+
+    def _fold_loop(self, s: ast.For) -> bool:
+        """for T in IT: [temps]; acc += f(T)   (or acc = acc + f(T) / acc = acc.add(f(T)))   ->   acc = acc0 + __fold_add__(f(T) for T in IT)"""
+        if not isinstance(s.target, ast.Name):
+            return False
+        t = s.target.id
+        body = [b for b in s.body if not is_noise_stmt(b) and not isinstance(b, ast.Pass)]
+        if not body:
+            return False
+        local = {}
+
+        def sub(e):
+            env2 = {k: v for k, v in self.env.items() if k != t}
+            return ast.fix_missing_locations(_Subst({**env2, **local}).visit(copy.deepcopy(e)))
+        for b in body[:-1]:
+            if isinstance(b, ast.Assign) and len(b.targets) == 1 and isinstance(b.targets[0], ast.Name):
+                local[b.targets[0].id] = self._eval_local_call(sub(b.value))
+            else:
+                return False
+        last = body[-1]
+        acc = term = None
+        inplace = False
+        if isinstance(last, ast.AugAssign) and isinstance(last.target, ast.Name) and isinstance(last.op, ast.Add):
+            acc, term = last.target.id, last.value
+            inplace = not getattr(last, 'from_plain', False)
+        elif isinstance(last, ast.Assign) and len(last.targets) == 1 and isinstance(last.targets[0], ast.Name):
+            acc = last.targets[0].id
+            v = last.value
+            if isinstance(v, ast.BinOp) and isinstance(v.op, ast.Add) and isinstance(v.left, ast.Name) and v.left.id == acc:
+                term = v.right
+            elif isinstance(v, ast.Call) and isinstance(v.func, ast.Attribute) and v.func.attr in ('add', '__add__') and isinstance(v.func.value, ast.Name) and v.func.value.id == acc and len(v.args) == 1:
+                term = v.args[0]
+            else:
+                return False
+        else:
+            return False
+        if acc == t or acc in local or self.env.get(acc) is None:
+            return False
+        if any(isinstance(x, ast.Name) and x.id == acc for x in ast.walk(term)):
+            return False
+        elt = self._eval_local_call(sub(term))
+        gen = ast.GeneratorExp(elt=elt, generators=[ast.comprehension(target=ast.Name(t, ast.Store()), iter=self.subst(s.iter), ifs=[], is_async=0)])
+        fold = ast.Call(func=ast.Name('__fold_add__', ast.Load()), args=[gen], keywords=[])
+        if inplace:
+            self.res.inplace_folds.append((acc, s))
+        self.env[acc] = ast.fix_missing_locations(ast.BinOp(left=copy.deepcopy(self.env[acc]), op=ast.Add(), right=fold))
+        self.env[t] = None
+        return True
+
+    def _eval_local_call(self, e, depth=0):
+        """a call of a closure of the function (or of a function of the module that is not a rule anchor) whose body the evaluator can
+        run as a single path: replaced by what the closure returns, written over the arguments"""
+        if depth > 3 or not isinstance(e, ast.AST):
+            return e
+
+        class T(ast.NodeTransformer):
+            def visit_Call(tself, node):
+                tself.generic_visit(node)
+                if not (isinstance(node.func, ast.Name) and not node.keywords and not any(isinstance(a, ast.Starred) for a in node.args)):
+                    return node
+                callee = None
+                q = self.fn.qualname
+                while q:
+                    callee = self.m.funcs.get(q + '.' + node.func.id)
+                    if callee is not None:
+                        break
+                    q = q.rpartition('.')[0]
+                if callee is None:
+                    # a module-level helper that is not in the confirmed tree (a new helper used inside an expression)
+                    base = getattr(self.m.repo, 'baseline', None)
+                    cand = self.m.funcs.get(node.func.id)
+                    if cand is not None and base is not None and node.func.id not in base.get(self.m.name, set()) and cand.cls is None:
+                        callee = cand
+                if callee is None or callee is self.fn or len(callee.params) != len(node.args):
+                    return node
+                env0 = {k: v for k, v in self.env.items() if k not in callee.params}
+                env0.update(dict(zip(callee.params, [copy.deepcopy(a) for a in node.args])))
+                paths = run_paths(callee, self.pred, self.value, max_forks=2, env=env0, eval_closures=True)
+                if not paths:
+                    return node
+                for _, r_ in paths:
+                    # what the helper found out about memoisation / in-place accumulation concerns the caller's value as well
+                    self.res.memo_calls += [x for x in r_.memo_calls if x not in self.res.memo_calls]
+                    self.res.inplace_folds += [x for x in r_.inplace_folds if x not in self.res.inplace_folds]
+                if len(paths) == 1:
+                    res = paths[0][1]
+                    if res.unknown is not None or res.returned is None or res.updates or res.calls or res.raised is not None:
+                        return node
+                    return res.returned
+                if any(r.unknown is not None for _, r in paths):
+                    return node
+                # a memoising helper: `if key not in CACHE: CACHE[key] = VALUE` ... `return CACHE[key]`: the call denotes VALUE
+                rets = {ast.unparse(r.returned) if r.returned is not None else None for _, r in paths}
+                if len(rets) == 1 and None not in rets and all(r.unknown is None and not r.calls and r.raised is None for _, r in paths):
+                    filled = [(r, r.updates) for _, r in paths if r.updates]
+                    if len(filled) == 1 and len(filled[0][1]) == 1 and filled[0][1][0]['kind'] == 'store1':
+                        u = filled[0][1][0]
+                        ret = filled[0][0].returned
+                        if isinstance(ret, ast.Subscript) and ast.unparse(ret.value) == ast.unparse(u['target']) and ast.unparse(ret.slice) == ast.unparse(u['key']):
+                            self.res.memo_calls.append((callee.qualname, ast.unparse(u['target'])))
+                            return u['value']
+                return node
+        return ast.fix_missing_locations(T().visit(copy.deepcopy(e)))
 
     def _minmax_loop(self, s: ast.For) -> bool:
         """acc = E(0); for i in range(1, N): c = E(i); if c < acc: acc = c      ->   acc = min(E(i) for i in range(N))   (max alike;
@@ -1152,6 +1259,8 @@ class PathEval:
                         self.res.unknown, self.res.unknown_test = s, (self._undecided if self._undecided is not None else s.value.test)
                         return 'end'
                     val = self.subst(s.value) if v == 'keep' else self.subst(s.value.body if v else s.value.orelse)
+                if getattr(self, 'eval_closures', False):
+                    val = self._eval_local_call(val, getattr(self, 'depth', 0))
                 if isinstance(tgt, ast.Name):
                     val._seq = self.seq
                     self.env[tgt.id] = val
@@ -1176,6 +1285,9 @@ class PathEval:
                     self.res.updates.append(dict(kind='storeall', target=self.subst(s.value.func.value), over=self.subst(a0.generators[0].iter), key=None, value=self.subst(a0.value), node=s))
                     return None
             if isinstance(s, ast.For) and not s.orelse and self._argmax_loop(s):
+                self._summarised = True
+                return None
+            if isinstance(s, ast.For) and not s.orelse and self._fold_loop(s):
                 self._summarised = True
                 return None
             if isinstance(s, ast.For) and not s.orelse and self._minmax_loop(s):
@@ -1203,7 +1315,7 @@ class PathEval:
         return None
 
 
-def run_paths(fn: Func, subject_pred, value: str, max_forks: int = 3, body=None, env=None):
+def run_paths(fn: Func, subject_pred, value: str, max_forks: int = 3, body=None, env=None, eval_closures=False):
     """All paths of fn for the subject value, forking on tests that do not depend on the subject.
     Returns [(assumptions, PathResult)], assumptions = [(test node, truth)]; None when more than max_forks tests would have to be forked."""
     out = []
@@ -1217,6 +1329,7 @@ def run_paths(fn: Func, subject_pred, value: str, max_forks: int = 3, body=None,
         def other(t, pe, table=table):
             return table.get(id(t))
         pe = PathEval(fn, subject_pred, value, other)
+        pe.eval_closures = eval_closures
         if env:
             pe.env.update(env)
         res = pe.run(body)
